@@ -679,7 +679,7 @@ impl CaseDriver for Dag {
     fn describe(&self, t: Tier) -> Describe {
         Describe {
             rule: format!(
-                "placed libraries of n = {}..={} cells: every DAG (cell i may instantiate any subset of the cells j < i) x every listing order of the cells (n!) x reflection base (instance k of a cell gets combination (base+k) mod 4, so all four occur) x content profile (0/1/2 assignments and cuts per layout, witness quadruples with four different numbers); value deviations (transport: message as exported / through prost encode+decode, library / cell names incl. empty and non-ASCII, outline 1-3 steps / repeated step / zero, metals 0..3, views layout / layout+abstract / abstract-only leaf, a layout view named differently from its cell, per-cell assignment and cut counts, a cut / an assignment stated twice (adjacent or apart), crossings between layers three apart / on one layer / with the crossing track on layer 0, net names, per-instance reflection, location incl. (0,0) and negative, duplicated instance) in at most {} place(s). State = one library description + transport; non-trivial = at least one instance, assignment or cut.",
+                "placed libraries of n = {}..={} cells: every DAG (cell i may instantiate any subset of the cells j < i) x every listing order of the cells (n!) x reflection base (instance k of a cell gets combination (base+k) mod 4, so all four occur) x content profile (0/1/2 assignments and cuts per layout, witness quadruples with four different numbers); value deviations (transport: message as exported / through prost encode+decode, library / cell names incl. empty and non-ASCII, outline 1-3 steps / repeated step / zero, metals 0..3, views layout / layout+abstract (the abstract optionally with another metal count and outline) / abstract-only leaf / leaf without any view, a layout view named differently from its cell, per-cell assignment and cut counts, a cut / an assignment stated twice (adjacent or apart), crossings between layers three apart / on one layer / with the crossing track on layer 0, net names, per-instance reflection, location incl. (0,0) and negative, duplicated instance) in at most {} place(s). State = one library description + transport; non-trivial = at least one instance, assignment or cut.",
                 self.nmin,
                 self.nmax,
                 self.bound(t)
@@ -723,7 +723,8 @@ impl CaseDriver for Dag {
             let (ox, oy) = outline_alt(i, c.cost(5, "outline"));
             let metals = ([2usize, 0, 3, 1][i % 4] + c.cost(4, "metals")) % 4;
             let leaf = edges[i].is_empty();
-            let views = c.cost(if leaf { 3 } else { 2 }, "views");
+            // leaf cells: layout / layout + abstract / abstract only / neither view (a placeholder made by `Cell::new`)
+            let views = c.cost(if leaf { 4 } else { 2 }, "views");
             let nas = (profile + c.cost(3, "n-assign")) % 3;
             let ncut = (profile + c.cost(3, "n-cut")) % 3;
             let mut insts = vec![];
@@ -783,9 +784,14 @@ impl CaseDriver for Dag {
                 }
             }
             // the layout view may carry a name of its own (the cell is still known by the cell's name)
-            let view_name = if views != 2 && c.cost(2, "layout-view-named-differently") == 1 { Some(format!("{cname}_impl")) } else { None };
-            let layout = if views == 2 { None } else { Some(LayoutD { view_name, ox: ox.clone(), oy: oy.clone(), metals, insts, assigns, cuts }) };
-            let abs = if views >= 1 { Some(AbsD { ox, oy, metals }) } else { None };
+            let view_name = if views < 2 && c.cost(2, "layout-view-named-differently") == 1 { Some(format!("{cname}_impl")) } else { None };
+            let layout = if views >= 2 { None } else { Some(LayoutD { view_name, ox: ox.clone(), oy: oy.clone(), metals, insts, assigns, cuts }) };
+            // with both views the abstract may differ from the layout in its metal count and outline
+            let abs = match views {
+                1 if c.cost(2, "abstract-differs-from-layout") == 1 => Some(AbsD { ox: ox.iter().map(|v| v + 1).collect(), oy: oy.iter().map(|v| 2 * v).collect(), metals: (metals + 1) % 4 }),
+                1 | 2 => Some(AbsD { ox, oy, metals }),
+                _ => None,
+            };
             cells.push(CellD { name: cname, layout, abs });
         }
         RtCase { lib: LibD { name, cells, listing }, via_bytes, nedges }
@@ -806,7 +812,9 @@ impl CaseDriver for Dag {
         for c in &d.cells {
             cx.tag(match (&c.layout, &c.abs) {
                 (Some(_), None) => "views:layout",
+                (Some(l), Some(a)) if l.metals != a.metals => "views:layout+different-abstract",
                 (Some(_), Some(_)) => "views:layout+abstract",
+                (None, None) => "views:none",
                 _ => "views:abstract",
             });
             if let Some(l) = &c.layout {
@@ -914,7 +922,7 @@ impl CaseDriver for Dag {
         require_tags(
             stats,
             &[
-                "transport:bytes", "transport:message", "listing:not-dependency-order", "views:layout", "views:layout+abstract", "views:abstract", "outline:1-step", "outline:2-step", "outline:3-step", "refl:none", "refl:h", "refl:v",
+                "transport:bytes", "transport:message", "listing:not-dependency-order", "views:layout", "views:layout+abstract", "views:layout+different-abstract", "views:none", "views:abstract", "outline:1-step", "outline:2-step", "outline:3-step", "refl:none", "refl:h", "refl:v",
                 "refl:hv", "has:assignments", "has:cuts",
             ],
         )?;
